@@ -30,7 +30,7 @@ RULE = ('(generated) Hypothesis draws a class model with automatic recognition '
         'rejects for a reason other than a top-level kind mismatch; distinct = '
         'distinct (model, text)')
 ASSUMPTIONS = [
-    'documents have distinct scalar mapping keys, no aliases, no merge keys, '
+    'documents have distinct scalar mapping keys, no cyclic aliases (acyclic aliases are read as their expansion), no merge keys, '
     'no explicit non-core tags (those belong to C03/C04/C08/C18) except one '
     'tagged object of a registered class placed below an unknown key (src '
     '+tagged_extra: plain data in _yatiml_extra, or a rejection); others are '
@@ -61,6 +61,10 @@ def cases(draw):
         if t2 is not None:
             return {'model': spec, 'text': T.render_flow(t2), 'src': src + '+tagged_extra',
                     'tags_ok': True}
+    if draw(st.integers(0, 5)) == 0:
+        t, info = draw(gen.share(t))
+        if info:
+            src += '+aliases'
     return {'model': spec, 'text': T.render_flow(t), 'src': src}
 
 
@@ -77,12 +81,20 @@ def has_instance(v):
 
 def in_domain(node, tags_ok=False):
     """No explicit non-core tags, scalar distinct keys, no aliases."""
-    seen = set()
+    onpath = set()
 
     def go(n):
-        if id(n) in seen:
-            return 'alias'
-        seen.add(id(n))
+        # acyclic aliases stand for their expansion (C18), which is what the
+        # reference reads; only cycles are outside the domain
+        if id(n) in onpath:
+            return 'cyclic_alias'
+        onpath.add(id(n))
+        try:
+            return go_(n)
+        finally:
+            onpath.discard(id(n))
+
+    def go_(n):
         if not n.tag.startswith('tag:yaml.org,2002:') and not tags_ok:
             return 'noncore_tag'
         if isinstance(n, yaml.SequenceNode):
